@@ -186,3 +186,45 @@ Proof.
     try (vm_compute; repeat split; reflexivity); try (vm_compute; auto).
   constructor. vm_compute. discriminate.
 Qed.
+
+(* the 13 encode/decode vectors of the unit tests in src/message.rs, on the model *)
+Definition ex_id3 : N := be_to_N (bs "0123456789abcdefghij").
+Definition ex_id4 : N := be_to_N (bs "mnopqrstuvwxyz012345").
+Definition ex_a1 : addr := mkAddr false 1635281509 11893.                 (* 97.120.106.101:11893 "axje.u" *)
+Definition ex_a2 : addr := mkAddr false 1768188020 28269.                 (* 105.100.104.116:28269 "idhtnm" *)
+Definition ex_a6 : addr := mkAddr true (be_to_N (bs "abcdefghijklmnop")) 11893.
+Definition unit_vectors : list (string * msg) := [
+  ("d1:ad2:id20:abcdefghij0123456789e1:q4:ping1:t2:aa1:y1:qe", mkMsg (bs "aa") (Req (Ping ex_id1)));
+  ("d1:ad2:id20:abcdefghij01234567896:target20:mnopqrstuvwxyz123456e1:q9:find_node1:t2:aa1:y1:qe",
+   mkMsg (bs "aa") (Req (FindNode ex_id1 ex_id2 None)));
+  ("d1:ad2:id20:abcdefghij01234567896:target20:mnopqrstuvwxyz1234564:wantl2:n42:n6ee1:q9:find_node1:t2:aa1:y1:qe",
+   mkMsg (bs "aa") (Req (FindNode ex_id1 ex_id2 (Some WantBoth))));
+  ("d1:ad2:id20:abcdefghij01234567899:info_hash20:mnopqrstuvwxyz123456e1:q9:get_peers1:t2:aa1:y1:qe",
+   mkMsg (bs "aa") (Req (GetPeers ex_id1 ex_id2 None)));
+  ("d1:ad2:id20:abcdefghij01234567899:info_hash20:mnopqrstuvwxyz1234564:wantl2:n4ee1:q9:get_peers1:t2:aa1:y1:qe",
+   mkMsg (bs "aa") (Req (GetPeers ex_id1 ex_id2 (Some WantV4))));
+  ("d1:ad2:id20:abcdefghij012345678912:implied_porti1e9:info_hash20:mnopqrstuvwxyz1234564:porti0e5:token8:aoeusnthe1:q13:announce_peer1:t2:aa1:y1:qe",
+   ex_announce);
+  ("d1:ad2:id20:abcdefghij01234567899:info_hash20:mnopqrstuvwxyz1234564:porti6881e5:token8:aoeusnthe1:q13:announce_peer1:t2:aa1:y1:qe",
+   mkMsg (bs "aa") (Req (AnnouncePeer ex_id1 ex_id2 (Some 6881) (bs "aoeusnth"))));
+  ("d1:rd2:id20:mnopqrstuvwxyz123456e1:t2:aa1:y1:re", mkMsg (bs "aa") (Resp (mkResp ex_id2 [] [] [] None)));
+  ("d1:rd2:id20:0123456789abcdefghij5:nodes26:mnopqrstuvwxyz012345axje.ue1:t2:aa1:y1:re",
+   mkMsg (bs "aa") (Resp (mkResp ex_id3 [] [mkNodeh ex_id4 ex_a1] [] None)));
+  ("d1:rd2:id20:0123456789abcdefghij6:nodes638:mnopqrstuvwxyz012345abcdefghijklmnop.ue1:t2:aa1:y1:re",
+   mkMsg (bs "aa") (Resp (mkResp ex_id3 [] [] [mkNodeh ex_id4 ex_a6] None)));
+  ("d1:rd2:id20:abcdefghij01234567895:token8:aoeusnth6:valuesl6:axje.u6:idhtnmee1:t2:aa1:y1:re",
+   mkMsg (bs "aa") (Resp (mkResp ex_id1 [ex_a1; ex_a2] [] [] (Some (bs "aoeusnth")))));
+  ("d1:rd2:id20:abcdefghij01234567895:nodes52:mnopqrstuvwxyz123456axje.u789abcdefghijklmnopqidhtnm5:token8:aoeusnthe1:t2:aa1:y1:re",
+   mkMsg (bs "aa") (Resp (mkResp ex_id1 [] [mkNodeh ex_id2 ex_a1; mkNodeh (be_to_N (bs "789abcdefghijklmnopq")) ex_a2] []
+                                 (Some (bs "aoeusnth")))));
+  ("d1:eli201e23:A Generic Error Ocurrede1:t2:aa1:y1:ee", mkMsg (bs "aa") (Err 201 (bs "A Generic Error Ocurred")))
+]%string.
+
+Example c13_unit_vectors :
+  forallb (fun v => msg_wf (snd v) && msg_small (snd v) &&
+                    match encode_msg (snd v), decode_msg (bs (fst v)) with
+                    | Some b, Some m => bytes_eqb b (bs (fst v)) && bytes_eqb b (canon (tree_of_msg (snd v)))
+                                        && match encode_msg m with Some b' => bytes_eqb b' b | None => false end
+                    | _, _ => false
+                    end) unit_vectors = true.
+Proof. vm_compute. reflexivity. Qed.
